@@ -1,0 +1,54 @@
+//go:build verif
+
+// Machine-checked contracts for the stand-alone proxy (read by /verif/bin/gvc; comment-only, adds no declarations).
+package main
+
+// hop(name): the hop-by-hop header names of RFC 7230 section 6.1 (taken from the property, not from the code).
+//@ pure hop(name string) bool = lower(name) == "connection" || lower(name) == "keep-alive" || lower(name) == "proxy-authenticate"
+//@   | || lower(name) == "proxy-authorization" || lower(name) == "te" || lower(name) == "trailer" || lower(name) == "transfer-encoding" || lower(name) == "upgrade"
+//@ pure canonicalKeys(h ref) bool = forall_str(k, in(k, h) ==> canon(k) == k)
+
+//@ type proxy
+//@   guarded requests by Mutex
+//@   guarded randGenerator by Mutex
+
+//@ func isHopByHopHeader props(C02,C03)
+//@   assigns nothing
+//@   ensures[C02:hop-spec] r0 <==> hop(name)
+
+//@ func (*proxy).handleAgentRequest props(C01)
+//@   assigns heap
+
+//@ func (*proxy).newID props(C01,C07)
+//@   requires p != nil && p.randGenerator != nil
+//@   assigns nothing
+
+// ServeHTTP, client side. The request is handed to the pending table with only its hop-by-hop header fields
+// removed (C02); it is stored and enqueued under one and the same fresh id, once (C01, C04); the response
+// relayed to this client is the one received on this request's own rendezvous channel (C01, C03).
+//@ func (*proxy).ServeHTTP props(C01,C02,C03,C04,C07)
+//@   requires p != nil && w != nil && r != nil && r.Header != nil && canonicalKeys(r.Header) && p.requests != nil && p.randGenerator != nil
+//@   requires !held(p.Mutex) && p.requestIDs != nil && !closed(p.requestIDs)
+//@   ghost enq int = 0
+//@   ghost got ref = nil
+//@   loop 1
+//@     assigns mapof(r.Header)
+//@     invariant[C02:filter-dom] forall_str(k, in(k, r.Header) <==> (old(in(k, r.Header)) && !(visited[k] && hop(k))))
+//@     invariant[C02:filter-vals] forall_str(k, in(k, r.Header) ==> r.Header[k] == old(r.Header[k]))
+//@   call newPendingRequest
+//@     assert[C02:hop-filtered] forall_str(k, in(k, r.Header) <==> (old(in(k, r.Header)) && !hop(k)))
+//@     assert[C02:values-kept] forall_str(k, in(k, r.Header) ==> r.Header[k] == old(r.Header[k]))
+//@     assert[C02:request-otherwise-untouched] arg0 == r && r.Header == old(r.Header) && r.Method == old(r.Method) && r.URL == old(r.URL) && r.Host == old(r.Host) && r.Body == old(r.Body) && r.ContentLength == old(r.ContentLength)
+//@   send requestIDs
+//@     assert[C04:enqueue-once] enq == 0
+//@     assert[C01:enqueue-own-id] arg0 == p.requestIDs && arg1 == id && p.requests[id] == pending && pending.req == r
+//@     do enq = enq + 1
+//@   recv respChan
+//@     assert[C01:own-channel] arg0 == pending.respChan && enq == 1
+//@     assume ret0 != nil && ret0.Header != asHeader(rwHeader[w]) && ret0.Trailer != asHeader(rwHeader[w])
+//@     do got = ret0
+//@   call (http.ResponseWriter).WriteHeader
+//@     assert[C01:own-response] arg0 == w && resp == got
+//@     assert[C03:status] arg1 == resp.StatusCode
+//@   call io.Copy
+//@     assert[C01:own-body] arg0 == w && arg1 == resp.Body && resp == got
